@@ -8,6 +8,7 @@ import (
 	"path/filepath"
 	"sort"
 	"sync"
+	"sync/atomic"
 	"time"
 )
 
@@ -56,6 +57,7 @@ type Run struct {
 	Rule     string
 	Assume   []string
 	MaxViol  int
+	aborted  atomic.Bool
 }
 
 // Flags common command line flags of the vrun sub-commands
@@ -207,7 +209,10 @@ func (r *Run) Violations() int {
 }
 
 // TooMany whether enough unlisted violations were collected to stop early
-func (r *Run) TooMany() bool { return r.Violations() >= r.MaxViol }
+func (r *Run) TooMany() bool { return r.aborted.Load() || r.Violations() >= r.MaxViol }
+
+// Abort stops the run early (after a violation whose repetition would only burn watchdog time)
+func (r *Run) Abort() { r.aborted.Store(true) }
 
 // Violate reports a violation; it is matched against the known findings on its structured
 // witness (kind + params), never on free text
